@@ -287,8 +287,9 @@ func assignKey(t *pgen.Type) string {
 
 func opPlugins(op string, t *pgen.Type) []string {
 	k := assignKey(t)
-	lk := "[]" + t.Expr("", nil)
-	sk := "map[" + t.Expr("", nil) + "]struct{}"
+	// list helpers register either the slice type or the element type: key on the element up to assignability
+	lk := "[]" + k
+	sk := "map[" + k + "]struct{}"
 	switch op {
 	case "x":
 		return nil
